@@ -70,7 +70,7 @@ class C07(Prop):
   thorough_examples = 4000
   rule = ("Generated scripts under the deterministic scheduler: 1-3 ActiveObjects, each with or "
           "without the spy decorator on its states, a quarter of them built with instrumented=False; up to 10 operations from subscribe(signal, "
-          "fifo/lifo) and publish(signal) - each called either from outside (body thread) or from "
+          "fifo/lifo; the signal given as an Event or as its number) and publish(signal) - each called either from outside (body thread) or from "
           "inside one of the object's own handlers during a step - start_at, settle and clear() of the quiet fabric (after which every object has to subscribe again), in any "
           "order (so subscriptions and publications happen before and after start, with none, one "
           "or several other objects already subscribed to the signal); the script ends by starting "
@@ -165,6 +165,9 @@ class C07(Prop):
           ever.add((a, sig))
           if where == "handler":
             charts[a].post_fifo(Event(signal=signals["VCMD"], payload=("subscribe", sig, kind)))
+          elif idx % 3 == 0:
+            charts[a].subscribe(signals[sig], queue_type=kind)       # by signal number
+            flags["classes"].add("subscribe_by_number")
           else:
             charts[a].subscribe(Event(signal=signals[sig]), queue_type=kind)
           called[(a, sig, kind)] = idx
